@@ -1,0 +1,31 @@
+//go:build verif
+
+package version
+
+import "github.com/lindb/lindb/pkg/bufioutil"
+
+type verifC02ManifestWriter struct {
+	bufioutil.BufioWriter
+	beforeSync func()
+}
+
+func (w *verifC02ManifestWriter) Sync() error {
+	w.beforeSync()
+	return w.BufioWriter.Sync()
+}
+
+// VerifC02WrapManifestWriter makes every manifest writer created from now on call beforeSync
+// right before it syncs a record: inside CommitFamilyEditLog that is after the commit read the
+// next file number (under the version-set mutex) and before it applies its edit log.
+// Returns a function restoring the previous seam value.
+func VerifC02WrapManifestWriter(beforeSync func()) (restore func()) {
+	old := newBufferWriterFunc
+	newBufferWriterFunc = func(fileName string) (bufioutil.BufioWriter, error) {
+		w, err := old(fileName)
+		if err != nil {
+			return nil, err
+		}
+		return &verifC02ManifestWriter{BufioWriter: w, beforeSync: beforeSync}, nil
+	}
+	return func() { newBufferWriterFunc = old }
+}
